@@ -46,6 +46,7 @@ func propGen(prop, tier string, idx int) GenOpts {
 		o.WOp = [8]int{0, 14, 4, 2, 0, 0, 0, 0}
 		o.MaxOps = 6
 		o.PFocus = 500
+		o.PReuseType, o.PName, o.PGroup = 300, 250, 250
 		// "a failed construction yields no instance and may be retried"
 		if idx%4 == 3 {
 			o.FaultBudget = [4]int{2, 5, 3, 0}
@@ -70,6 +71,7 @@ func propGen(prop, tier string, idx int) GenOpts {
 		o.MaxOps = 10
 	case "C05":
 		o.PCycle = 500
+		o.PDup = 120
 		o.MaxRegs = 6
 		conc(1, 1)
 		o.MaxOps = 4
@@ -345,6 +347,22 @@ func (e *containerEngine) exec(c *Case, tape *Tape) *RunOut {
 // reach probes: rare conditions that must be hit for the search to mean something.
 func (e *containerEngine) reach(h *H, a *Analysis, out *RunOut) {
 	r := out.Reach
+	// configuration shapes
+	for _, x := range h.cfg.Regs {
+		if (x.Form == FMulti || x.Form == FMultiErr) && (x.Name != "" || x.Group != "") && h.model.V.Accepted[x.ID] {
+			for _, y := range h.cfg.Regs {
+				if y.ID != x.ID && h.model.V.Accepted[y.ID] {
+					for _, p := range regIdents(y) {
+						for _, o := range x.Outs {
+							if p.Id.T == o.T && p.Id.Key == "" && p.Id.Group == "" {
+								r["cfg.named-multi-return-next-to-plain-registration-of-same-type"]++
+							}
+						}
+					}
+				}
+			}
+		}
+	}
 	r["sim.lock_contended"] += h.sim.LockContended
 	r["sim.chan_blocked"] += h.sim.ChanBlocked
 	r["sim.map_perms"] += h.sim.MapPerms
